@@ -398,8 +398,12 @@ pub fn check_lookup_constraints<F: RichField + Extendable<D>, const D: usize>(
         lookup_selectors[LookupSelectors::LastLdc as usize] * z_x_lookup_sldcs[num_sldc_polys - 1],
     );
 
-    // Check initial Sum constraint.
-    constraints.push(lookup_selectors[LookupSelectors::InitSre as usize] * z_x_lookup_sldcs[0]);
+    // Check initial Sum constraint. The running sum enters the first table row through the last
+    // partial-sum polynomial of the row below it (see `prev` in the transitions), so that is the
+    // value which must start at zero.
+    constraints.push(
+        lookup_selectors[LookupSelectors::InitSre as usize] * z_x_lookup_sldcs[num_sldc_polys - 1],
+    );
 
     // Check initial RE constraint.
     constraints.push(lookup_selectors[LookupSelectors::InitSre as usize] * z_re);
@@ -568,8 +572,12 @@ pub fn check_lookup_constraints_batch<F: RichField + Extendable<D>, const D: usi
         lookup_selectors[LookupSelectors::LastLdc as usize] * z_x_lookup_sldcs[num_sldc_polys - 1],
     );
 
-    // Check initial Sum constraint.
-    constraints.push(lookup_selectors[LookupSelectors::InitSre as usize] * z_x_lookup_sldcs[0]);
+    // Check initial Sum constraint. The running sum enters the first table row through the last
+    // partial-sum polynomial of the row below it (see `prev` in the transitions), so that is the
+    // value which must start at zero.
+    constraints.push(
+        lookup_selectors[LookupSelectors::InitSre as usize] * z_x_lookup_sldcs[num_sldc_polys - 1],
+    );
 
     // Check initial RE constraint.
     constraints.push(lookup_selectors[LookupSelectors::InitSre as usize] * z_re);
@@ -1029,7 +1037,7 @@ pub fn check_lookup_constraints_circuit<F: RichField + Extendable<D>, const D: u
     // Check initial Sum constraint.
     constraints.push(builder.mul_extension(
         lookup_selectors[LookupSelectors::InitSre as usize],
-        z_x_lookup_sldcs[0],
+        z_x_lookup_sldcs[num_sldc_polys - 1],
     ));
 
     // Check initial RE constraint.
